@@ -260,6 +260,14 @@ def constants_check(read):
 
 # ---------------------------------------------------------------- external callees that panic
 PANICSITES = {
+    "into_bytes.biguint_allocation": {
+        "file": "zkir/src/instructions/operations/into_bytes.rs", "item": ["impl IrValue", "fn into_bytes"],
+        "call": r"\.resize\(n, 0\)",
+        "guard": r"BigUint\(big\) => \{ (?:(?!\.resize).)*\bn (?:>|>=) ",
+        "why": "Vec::resize(n, 0) allocates n bytes; n is the parameter of IntoBytes(n) in the (untrusted) IR program and is only checked from below (bytes.len() > n)",
+        "props": ["C16"], "witness": "into_bytes_alloc",
+        "clause": "the byte length n of IntoBytes(n) on a BigUint is bounded from above before `result.resize(n, 0)` allocates n bytes (C16: no allocation proportional to an unchecked length field; IntoBytes(usize::MAX) panics with `capacity overflow`)",
+    },
     "mod_exp_offcircuit.zero_modulus": {
         "file": "zkir/src/instructions/operations/mod_exp.rs", "item": ["fn mod_exp_offcircuit"],
         "call": r"\.modpow\(", "guard": r"\bif [^{]*\bm\b[^{]*(is_zero\(\)|bits\(\) == 0|== &?BigUint::ZERO)[^{]*\{ return Err",
